@@ -539,11 +539,21 @@ func (s *Stream) OnBufferedAmountLow(f func()) {
 // This method is called by association's readLoop (go-)routine to notify this stream
 // of the specified amount of outgoing data has been delivered to the peer.
 func (s *Stream) onBufferReleased(nBytesReleased int) {
+	if f := s.releaseBufferedAmount(nBytesReleased); f != nil {
+		f()
+	}
+}
+
+// releaseBufferedAmount lowers the buffered amount by the bytes newly acknowledged
+// and returns the low-threshold callback when the amount crossed the threshold: the
+// caller invokes it once it holds no lock.
+func (s *Stream) releaseBufferedAmount(nBytesReleased int) func() {
 	if nBytesReleased <= 0 {
-		return
+		return nil
 	}
 
 	s.lock.Lock()
+	defer s.lock.Unlock()
 
 	fromAmount := s.bufferedAmount
 
@@ -558,14 +568,10 @@ func (s *Stream) onBufferReleased(nBytesReleased int) {
 	s.log.Tracef("[%s] bufferedAmount = %d", s.name, s.bufferedAmount)
 
 	if s.onBufferedAmountLow != nil && fromAmount > s.bufferedAmountLow && s.bufferedAmount <= s.bufferedAmountLow {
-		f := s.onBufferedAmountLow
-		s.lock.Unlock()
-		f()
-
-		return
+		return s.onBufferedAmountLow
 	}
 
-	s.lock.Unlock()
+	return nil
 }
 
 func (s *Stream) getNumBytesInReassemblyQueue() int {
